@@ -81,3 +81,49 @@ package actionlint
 //@ func newString
 //@   props C07
 //@   ensures result.Pos.Line == n.Line && result.Pos.Col == n.Column && result.Value == n.Value
+
+// semantic checks report at the node they are about: the checked node itself, the index expression
+// for a complaint about the index, the literal for a complaint about a literal argument, and the
+// k-th argument node for a complaint about the type of the k-th argument
+//@ func (*ExprSemanticsChecker).errorf
+//@   props C07
+//@   at_call errorfAtExpr: e == e0
+//@ func (*ExprSemanticsChecker).checkVariable
+//@   props C07
+//@   at_call (*ExprSemanticsChecker).errorf: e == iface(n)
+//@ func (*ExprSemanticsChecker).checkAvailableContext
+//@   props C07
+//@   at_call (*ExprSemanticsChecker).errorf: e == iface(n)
+//@ func (*ExprSemanticsChecker).checkSpecialFunctionAvailability
+//@   props C07
+//@   at_call (*ExprSemanticsChecker).errorf: e == iface(n)
+//@ func (*ExprSemanticsChecker).checkConfigVariables
+//@   props C07
+//@   at_call (*ExprSemanticsChecker).errorf: e == iface(n)
+//@ func (*ExprSemanticsChecker).checkObjectDeref
+//@   props C07
+//@   at_call (*ExprSemanticsChecker).errorf: e == iface(n)
+//@ func (*ExprSemanticsChecker).checkArrayDeref
+//@   props C07
+//@   at_call (*ExprSemanticsChecker).errorf: e == iface(n)
+//@ func (*ExprSemanticsChecker).checkIndexAccess
+//@   props C07
+//@   at_call (*ExprSemanticsChecker).errorf: e == iface(n) || e == n.Index
+//@ func (*ExprSemanticsChecker).checkFuncCall
+//@   props C07
+//@   at_call (*ExprSemanticsChecker).errorf: e == iface(n)
+//@ func (*ExprSemanticsChecker).checkNotOp
+//@   props C07
+//@   at_call (*ExprSemanticsChecker).errorf: e == iface(n)
+//@ func (*ExprSemanticsChecker).checkCompareOp
+//@   props C07
+//@   at_call (*ExprSemanticsChecker).errorf: e == iface(n)
+//@ func (*ExprSemanticsChecker).checkBuiltinFuncCall
+//@   props C07
+//@   at_call (*ExprSemanticsChecker).errorf: e == iface(n) || e == n.Args[0]
+//@ func checkFuncSignature
+//@   props C07
+//@   loop "i < len(sig.Params)":
+//@     at_call errorfAtExpr: e == n.Args[i] && a == args0[i]
+//@   loop "range rest":
+//@     at_call errorfAtExpr: e == n.Args[lp + i] && a == args0[lp + i]
